@@ -315,7 +315,7 @@ deriving Repr, DecidableEq
 structure Tree where
   m : List Ent
   edges : List Edge
-deriving Repr
+deriving Repr, DecidableEq
 
 /-- `(*TOCEntry).addChild`: the children map is keyed by base name. -/
 def addEdge (es : List Edge) (e : Edge) : List Edge :=
@@ -383,43 +383,58 @@ deriving Repr, DecidableEq
 
 def clampN (n len : Int) : Int := if n < 0 then 0 else if n > len then len else n
 
-/-- The `for nr < len(p)` loop of `(*file).ReadAt`; one scripted answer per iteration.
+def lowerOf (off : Int) (c : Chunk) : Int := positive (wrap64 (off - c.co))
+def upperOf (lenP off : Int) (c : Chunk) : Int :=
+  positive (wrap64 (wrap64 (c.co + c.cs) - wrap64 (off + lenP)))
+def expectedOf (c : Chunk) (lower upper : Int) : Int := wrap64 (wrap64 (c.cs - upper) - lower)
+
+/-- The chunk-cache branch: `r.ReadAt(p[nr:int64(nr)+expectedSize], lowerDiscard)`; a hit counts
+only when the cache delivered exactly `expectedSize` bytes. -/
+def hitRes (c : Chunk) (nr expected lenP : Int) : Outcome (Option Int) :=
+  if c.hit < 0 then ok none else
+  match slice? nr (nr + expected) lenP with
+  | ok _ => if clampN c.hit expected = expected then ok (some expected) else ok none
+  | _ => Outcome.panic
+
+/-- The cache-miss branch of one iteration: events and the number of bytes `nr` advances by.
 `bound` is the largest buffer the process can allocate: `b.Grow(int(chunkSize))` beyond it
 panics ("bytes.Buffer: too large") or kills the process (out of memory). -/
+def missPath (bound lenP nr : Int) (c : Chunk) (lower upper expected : Int) : List REv × Outcome Int :=
+  if lower = 0 ∧ upper = 0 then
+    -- ip := p[nr : int64(nr)+chunkSize]; n, err := sf.fr.ReadAt(ip, chunkOffset); nr += n
+    match slice? nr (nr + c.cs) lenP with
+    | ok _ => ([REv.storeRead c.cs c.co], ok (clampN c.n c.cs))
+    | _ => ([], Outcome.panic)
+  else
+    -- b.Grow(int(chunkSize)); ip := b.Bytes()[:chunkSize]; copy(p[nr:], ip[lower : chunkSize-upper])
+    if c.cs > bound then ([REv.grow c.cs], Outcome.panic) else
+    match slice? 0 c.cs c.cs, slice? lower (c.cs - upper) c.cs, slice? nr lenP lenP with
+    | ok _, ok _, ok _ =>
+      let n := if lenP - nr < c.cs - upper - lower then lenP - nr else c.cs - upper - lower
+      if n ≠ expected then ([REv.grow c.cs, REv.storeRead c.cs c.co], err)
+      else ([REv.grow c.cs, REv.storeRead c.cs c.co], ok n)
+    | _, _, _ => ([REv.grow c.cs], Outcome.panic)
+
+/-- The `for nr < len(p)` loop of `(*file).ReadAt`; one scripted answer per iteration. -/
 def readLoop (bound lenP off : Int) : List Chunk → Int → List REv → List REv × Outcome Int
   | [], nr, evs =>
     if nr ≥ lenP then (evs, ok nr) else (evs ++ [REv.chunkAt (wrap64 (off + nr))], ok nr)
   | c :: rest, nr, evs =>
     if nr ≥ lenP then (evs, ok nr) else
     let evs := evs ++ [REv.chunkAt (wrap64 (off + nr))]
-    let lower := positive (wrap64 (off - c.co))
-    let upper := positive (wrap64 (wrap64 (c.co + c.cs) - wrap64 (off + lenP)))
-    let expected := wrap64 (wrap64 (c.cs - upper) - lower)
+    let lower := lowerOf off c
+    let upper := upperOf lenP off c
+    let expected := expectedOf c lower upper
     if c.cs ≤ 0 ∨ expected ≤ 0 ∨ expected > lenP - nr then (evs, err) else
-    -- chunk cache
-    let hitRes : Outcome (Option Int) :=
-      if c.hit < 0 then ok none else
-      match slice? nr (nr + expected) lenP with
-      | ok _ => if clampN c.hit expected = expected then ok (some expected) else ok none
-      | _ => Outcome.panic
-    match hitRes with
+    match hitRes c nr expected lenP with
     | Outcome.panic => (evs, Outcome.panic)
     | err => (evs, err)
     | ok (some n) => readLoop bound lenP off rest (nr + n) evs
     | ok none =>
-      if lower = 0 ∧ upper = 0 then
-        match slice? nr (nr + c.cs) lenP with
-        | ok _ => readLoop bound lenP off rest (nr + clampN c.n c.cs) (evs ++ [REv.storeRead c.cs c.co])
-        | _ => (evs, Outcome.panic)
-      else
-        -- temporary buffer: b.Grow(chunkSize); ip := b.Bytes()[:chunkSize]; ip[lower : chunkSize-upper]
-        if c.cs > bound then (evs ++ [REv.grow c.cs], Outcome.panic) else
-        match slice? 0 c.cs c.cs, slice? lower (c.cs - upper) c.cs, slice? nr lenP lenP with
-        | ok _, ok _, ok _ =>
-          let n := if lenP - nr < c.cs - upper - lower then lenP - nr else c.cs - upper - lower
-          if n ≠ expected then (evs ++ [REv.grow c.cs, REv.storeRead c.cs c.co], err)
-          else readLoop bound lenP off rest (nr + n) (evs ++ [REv.grow c.cs, REv.storeRead c.cs c.co])
-        | _, _, _ => (evs ++ [REv.grow c.cs], Outcome.panic)
+      match missPath bound lenP nr c lower upper expected with
+      | (e2, ok n) => readLoop bound lenP off rest (nr + n) (evs ++ e2)
+      | (e2, err) => (evs ++ e2, err)
+      | (e2, Outcome.panic) => (evs ++ e2, Outcome.panic)
 
 def fileReadAt (bound lenP off : Int) (script : List Chunk) : List REv × Outcome Int :=
   readLoop bound lenP off script 0 []
